@@ -41,6 +41,7 @@ type Profile struct {
 	Reloads          bool     // Reload ops use mutated configurations
 	UserPool         []string // users to draw applications' owners from (default: all)
 	BoundReqNodeProb int      // percent of RM reported allocations that are daemon set pods (require their node)
+	FragAskProb      int      // percent of asks sized just above the largest free block of any node (they have to reserve)
 	// ConfFn, when set, produces the initial configuration instead of GenConf(Conf)
 	ConfFn func(t *rapid.T) *configs.SchedulerConfig
 }
@@ -514,6 +515,21 @@ func (w *World) genAddAsk(t *rapid.T, p *Profile) Op {
 	op.App = pick(t, "app", apps)
 	app := s.Apps[op.App]
 	op.Res = genRes(t, "ask", p.AskLo, p.AskHi, true)
+	if p.FragAskProb > 0 && pct(t, "ask-just-above-largest-free-block", p.FragAskProb) {
+		// an ask that fits the free space of the cluster but not the free space of any single node: it has to reserve
+		var largest, total, largestCap int64
+		for _, id := range s.LiveNodes() {
+			if n := w.Last.Nodes[id]; n != nil && n.Schedulable {
+				a := n.Available["memory"]
+				total += a
+				largest = max(largest, a)
+				largestCap = max(largestCap, n.Capacity["memory"])
+			}
+		}
+		if largest+1 <= largestCap && largest+1 <= total {
+			op.Res = Res{"memory": largest + 1, "vcore": 1}
+		}
+	}
 	op.Prio = int32(rapid.IntRange(-1, 3).Draw(t, "prio"))
 	if pct(t, "prio-extreme", 6) {
 		// priority classes far apart (system critical, negative batch classes, the int32 extremes)
